@@ -47,6 +47,7 @@ import (
 	"github.com/obolnetwork/charon/testutil"
 	"github.com/obolnetwork/charon/testutil/relay"
 	"github.com/obolnetwork/charon/zzverif/enumx"
+	"github.com/obolnetwork/charon/zzverif/schedx"
 )
 
 // ---- case ------------------------------------------------------------------------------------
@@ -271,6 +272,9 @@ type c11Outcome struct {
 	stalled   bool // no node failed, nothing is deliverable any more and some node has not returned
 	delivered int  // handler invocations
 	dupDrops  int  // "Ignoring duplicate" decisions of the real callbacks during this ceremony
+	copies    int  // repeated deliveries (same bytes) handed to a real handler
+	earlyR2   int  // round 2 broadcasts handed to a recipient that was still in round 1
+	netOdd    int  // sends the harness network could not classify / saw twice
 }
 
 // firstErr returns the root cause if there is one (not the "peer failed" echo seen by the other nodes).
@@ -781,6 +785,11 @@ type c11State struct {
 	confirmed map[string]bool
 	attempts  map[string]int
 	sampled   int
+	// part two
+	thorough  bool
+	tpSampled int
+	ex        *schedx.Explorer
+	exDir     string
 }
 
 func (s *c11State) flush(cnt map[string]int) {
@@ -914,8 +923,23 @@ func TestVerifC11(t *testing.T) {
 	if enumx.Thorough() {
 		maxN, maxV = 8, 4
 	}
-	st := &c11State{r: r, confirmed: map[string]bool{}, attempts: map[string]int{}}
+	st := &c11State{r: r, confirmed: map[string]bool{}, attempts: map[string]int{}, thorough: enumx.Thorough()}
 	c11T = t
+	part := os.Getenv("VERIF_C11_PART") // developer knob: run only one part (the run is then marked as capped)
+	if part != "" {
+		r.NotExhaustive("VERIF_C11_PART=" + part + ": only that part was run")
+	}
+	if part != "2" {
+		c11PartOne(st, maxN, maxV)
+	}
+	if part != "1" && !r.Expired() {
+		c11PartTwo(st)
+	}
+}
+
+// c11PartOne: runFrostParallel over the harness barrier transport (and, thorough, the complete dkg.Run).
+func c11PartOne(st *c11State, maxN, maxV int) {
+	r := st.r
 	if enumx.Thorough() {
 		// Extension: the complete dkg.Run (two independent ceremonies each), same oracle on what the nodes
 		// wrote to disk.
